@@ -26,7 +26,38 @@ SENTENCES = [
 ]
 
 
+PDEP = [
+    ("shiftl", r"template <Ox S> struct shiftl \{ static constexpr Ox value = static_cast<Ox>\(1\) << S; \};"),
+    ("mask-bits-J-mod-N", r"static constexpr Ox value = \(\(std::conditional_t< Js % N == 0, std::integral_constant<Ox, shiftl<Js>::value>, "
+                          r"std::integral_constant<Ox, 0>>::value\) \| \.\.\.\);"),
+    ("mask-over-all-bits-shifted-by-I", r"static constexpr Ox value = get_mask_helper< std::make_index_sequence<CHAR_BIT \* sizeof\(Ox\)>>::value << I;"),
+    ("or-of-pdep", r"template <typename C, std::size_t\.\.\. Idxs> static constexpr Ox compute\(C c, std::index_sequence<Idxs\.\.\.>\) "
+                   r"\{ return \(_pdep_u64\(c\[Idxs\], get_mask<Idxs>::value\) \| \.\.\.\); \}"),
+    ("over-N-coordinates", r"template <typename C, typename Ids = std::make_index_sequence<N>> static constexpr Ox compute\(C c\) "
+                           r"\{ return compute\(std::forward<C>\(c\), Ids\{\}\); \}"),
+    ("selected-iff-bmi2", r"#ifdef HAVE_BMI2 if constexpr \(use_bmi2\) \{ return morton_pdep_mask< typename contravariant_input_t::scalar_t, "
+                          r"typename contravariant_output_t::scalar_t, contravariant_input_t::dimensions>::compute\(c\); \} else \{"),
+]
+
+
+def translate_pdep(repo):
+    """the BMI2 path of morton::calculate_index: a template metaprogram, recognised sentence by sentence
+    (model: `mortonMask N I` = bits J < 64 with J mod N = 0, shifted by I; `mortonPdep` = OR over the coordinates of pdep)"""
+    try:
+        text = norm(strip_comments((Path(repo) / CORE / "backend/transformer/morton.hpp").read_text()))
+    except OSError as e:
+        raise Untranslatable(str(e))
+    got = []
+    for name, pat in PDEP:
+        if len(re.findall(pat, text)) != 1:
+            raise Untranslatable(f"morton.hpp: the sentence `{name}` does not occur exactly once")
+        got.append(name)
+    return "(pdep " + " ".join(got) + ")"
+
+
 def translate(repo, k="context"):
+    if k == "morton_pdep":
+        return translate_pdep(repo)
     got = []
     texts = {}
     for f, name, pat in SENTENCES:
@@ -44,7 +75,8 @@ def translate(repo, k="context"):
 if __name__ == "__main__":
     import sys
     repo = sys.argv[sys.argv.index("--repo") + 1] if "--repo" in sys.argv else "/repo"
-    try:
-        print(translate(repo))
-    except Untranslatable as e:
-        print("UNTRANSLATABLE:", e)
+    for k in ("context", "morton_pdep"):
+        try:
+            print(translate(repo, k))
+        except Untranslatable as e:
+            print(k, "UNTRANSLATABLE:", e)
